@@ -220,6 +220,8 @@ class Ctx:
                     self.obligation(f'theorem:{t}', not extra, f'axioms={sorted(seen[t])}')
         bad = scan_forbidden(prop)
         self.obligation('source-scan:no sorry/axiom/native_decide', not bad, '; '.join(bad[:5]))
+        for name, ok, detail in anchor_obligations(prop):
+            self.obligation(name, ok, detail)
         if self.tier == 'thorough' and rc_p == 0 and os.environ.get('VERIF_LEANCHECKER', '1') == '1':
             rc, out = _sh(['lake', 'env', 'leanchecker', f'PytezosModel.Props.{prop}'], cwd=LEAN, timeout=3000)
             self.obligation('leanchecker:Props', rc == 0, out[-500:])
@@ -364,6 +366,39 @@ class Ctx:
               f'({len(self.distinct)} distinct), model-traces {self.traces}, mismatches {len(self.mismatches)}, '
               f'violations {len(unlisted)}, known {len(seen_known)}, {ev["wall_s"]}s -> exit {rc}')
         return rc
+
+
+def anchor_obligations(prop):
+    """the functions the property is anchored in (properties.jsonl `anchors.mechanism`, located in the pinned tree and
+    followed by qualified name; anchors/anchors.json, written by tools/mk_anchors.py) still have the bodies the hand-written
+    mirror and the harness were made from.  A changed, moved or deleted anchored body is an open obligation
+    `anchor:<file>:<qualname>`: the tie between model and code is no longer established for it, and the run goes on to
+    search for a failing input.  [(name, ok, detail)]"""
+    import ast as _ast
+    path = os.path.join(ROOT, 'anchors', 'anchors.json')
+    if not os.path.exists(path):
+        return []
+    try:
+        sys.path.insert(0, os.path.join(ROOT, 'tools'))
+        import mk_anchors
+    finally:
+        sys.path.pop(0)
+    out, cache = [], {}
+    for e in json.load(open(path))['anchors'].get(prop, []):
+        f = os.path.join(REPO, e['file'])
+        if f not in cache:
+            try:
+                cache[f] = dict((q, mk_anchors.digest(n)) for q, n in mk_anchors.items(_ast.parse(open(f).read())))
+            except (OSError, SyntaxError) as ex:
+                cache[f] = {'<error>': str(ex)}
+        cur = cache[f]
+        name = f"anchor:{e['file'].replace('src/pytezos/', '')}:{e['name']}"
+        if e['name'] not in cur:
+            out.append((name, False, f"anchored definition not found in {e['file']} ({cur.get('<error>', 'renamed or removed')}); mechanism: {e['mechanism']}"))
+        else:
+            ok = cur[e['name']] == e['digest']
+            out.append((name, ok, '' if ok else f"body differs from the one the mirror was made from (digest {cur[e['name']]} != {e['digest']}); mechanism: {e['mechanism']}"))
+    return out
 
 
 def load_known(prop):
